@@ -223,6 +223,10 @@ func oracleOptions(c OptionsCase, o *h.Obs) *h.Fail {
 		ps := i % 2
 		got := runTreeOpts(tree, ps, to, shared, noMeet)
 		if got != solo[ps] {
+			if strings.Contains(got.err, "execution interrupted") {
+				o.Excluded = "resource guard: a run did not finish in time"
+				return nil
+			}
 			why := blame(ps)
 			return h.Failf("C14|options|"+why+"|sequential", "run %d of %d that were made one after the other with ONE *vm.Options value (Debug %v), each in a fresh environment (this one preset %d), differs from the run of a fresh parse in an equal fresh environment with an Options value of its own; the shared tree run once more with an Options value of its own: %s\nshared options: %v\nown options:    %v\nsource:\n%s", i+1, c.Runs, c.Debug, ps, why, got, solo[ps], c.Src)
 		}
@@ -263,6 +267,10 @@ func oracleOptions(c OptionsCase, o *h.Obs) *h.Fail {
 		wg.Wait()
 		for g := 0; g < c.G; g++ {
 			if res[g] != solo[g%2] {
+				if strings.Contains(res[g].err, "execution interrupted") {
+					o.Excluded = "resource guard: a run did not finish in time"
+					return nil
+				}
 				why := blame(g % 2)
 				return h.Failf("C14|options|"+why+"|concurrent", "one of %d runs made at the same time with ONE *vm.Options value (Debug %v), each in a fresh environment (this one preset %d), after %d runs one after the other, differs from the run of a fresh parse in an equal fresh environment with an Options value of its own; the shared tree run once more alone with an Options value of its own: %s\nshared options: %v\nown options:    %v\nsource:\n%s", c.G, c.Debug, g%2, c.Runs, why, res[g], solo[g%2], c.Src)
 			}
